@@ -2,7 +2,7 @@
    (any sequence of BIO calls, results and errors), for every oracle script of the operating system.
    What is NOT proved here: that OpenSSL encrypts and completes handshakes — the engine is an oracle (see DESIGN.md);
    the handshake's progress in driver mode is decided by the correspondence check's liveness monitor (gen/c18.py). *)
-From SP Require Import Base ListAux Os OsLemmas WaitModel WaitLemmas SocketModel Objects DriverModel TlsModel TlsLemmas TlsEmits TlsBracket TlsInterest TlsComplete Sim.
+From SP Require Import Base ListAux Os OsLemmas WaitModel WaitLemmas SocketModel Objects DriverModel TlsModel TlsLemmas TlsEmits TlsBracket TlsInterest TlsDrain TlsComplete Sim.
 Local Open Scope Z_scope.
 
 Local Notation os := (os ext).
@@ -192,6 +192,15 @@ Example tls_three_records :
   In (K_RET, [23; 1; 40000]) tr /\ In (K_ENG, [2; 7232; 7232; 0; 1]) tr.
 Proof. vm_compute. split; tauto. Qed.
 
+(* C03 over TLS (finding F14): the rest of a decrypted record that did not fit into the receive buffer causes no further poll
+   event. DriverReceive goes on handing over buffers while the engine reports pending plaintext; when it returns normally,
+   either the engine holds nothing more for this socket, or the last read produced no application data at all. *)
+Theorem driver_receive_drains_the_engine : forall run_block fuel k sk (s : os) s',
+  tdriver_receive_loop run_block fuel k sk s = (Ok tt, s') ->
+  drained k s' \/
+  (exists s0 id s1, tls_buffered_receive_now k (s_rxsize sk) s0 = (Ok (id, 0), s1) /\ precycle (1000 + k) id s1 = (Ok tt, s')).
+Proof. exact TlsDrain.receive_loop_drains. Qed.
+
 (* Finding F13 (known, not repaired): the retry loops assert that ten rounds always suffice. In driver mode (and for calls with
    a zero time-out) input that trickles in — ten times in a row the zero-time-out look of BioRead finds nothing and the
    zero-time-out wait of HandleError right after it finds the socket ready — exhausts them: the faithful model reaches
@@ -248,3 +257,4 @@ Print Assumptions pending_keeps_the_interest.
 Print Assumptions known_interest_is_polled.
 Print Assumptions tls_send_complete.
 Print Assumptions read_steps_suffice_refuted.
+Print Assumptions driver_receive_drains_the_engine.
